@@ -35,7 +35,7 @@ SURVEY_ALIAS = {
 }
 CHOICES_ALIAS = {"label": ["caption"], "name": ["value"], "list_name": ["list name"], "image": ["media::image"], "audio": ["media::audio"], "video": ["media::video"]}
 SETTINGS_ALIAS = {"form_id": ["id_string", "set_form_id"], "form_title": ["title", "set_form_title"]}
-KNOWN_SURVEY = set(SURVEY_ALIAS) | {"hint", "guidance_hint", "default", "trigger", "choice_filter", "parameters", "required", "constraint", "intent"}  # ("disabled" is not part of the spec: its header is matched literally)
+KNOWN_SURVEY = set(SURVEY_ALIAS) | {"hint", "guidance_hint", "default", "trigger", "choice_filter", "parameters", "required", "constraint", "intent", "disabled"}
 TYPE_ALIAS = {"select_one": ["select one", "select1"], "select_multiple": ["select all that apply"], "integer": ["int"], "image": ["photo"],
               "begin group": ["begin_group"], "end group": ["end_group"], "begin repeat": ["begin_repeat", "begin looped group", "begin lgroup", "begin_lgroup"], "end repeat": ["end_repeat", "end looped group", "end lgroup", "end_looped group"],
               "select_one_from_file": ["select one from file"], "select_multiple_from_file": ["select multiple from file"]}
@@ -67,6 +67,11 @@ def _cases(draw):
             if n["k"] == "q" and g.p("_", 0.3):
                 n["c"]["disabled"] = g.pick(["no", "false"])
         form["nodes"].append({"k": "x", "c": {"type": "text", "name": g.name("off"), "label": "off", "disabled": g.pick(["yes", "true"])}})
+    if g.p("_", 0.1):
+        # both id columns (documented: a warning, form_id wins): their headers may be written in any case
+        s_ = form.setdefault("settings", {})
+        s_.setdefault("form_id", "fid_both")
+        s_["id_string"] = "ids_both"
     kinds = [k for k in KINDS if g.p("_", 0.35)] or [g.pick(KINDS)]
     return {"form": form, "spec": {"seed": g.integer(0, 65535), "kinds": kinds}}
 
